@@ -1,7 +1,7 @@
 (* C02 — dump-then-load is the identity (v1 engine); loader generation never fails.
    Statements only (closed by `exact` / short glue) + Print Assumptions.
    Model: coq/model/V1Base.v V1Gen.v V1Errors.v V1Eval.v; proofs: coq/proofs/V1Gen*.v V1RtProofs.v *)
-From DW Require Import PyStr V1Base V1Gen V1Errors V1Eval V1GenInv V1GenSound V1GenTotal V1RtProofs.
+From DW Require Import PyStr V1Base V1Gen V1Errors V1Eval V1GenInv V1GenSound V1GenNames V1GenTotal V1RtProofs.
 From Coq Require Import ZArith List Bool.
 Import ListNotations.
 
@@ -23,38 +23,48 @@ Theorem C02_gen_main_total :
 Proof. exact gen_main_total. Qed.
 Print Assumptions C02_gen_main_total.
 
-(* (b) Generator soundness, compiler-correctness style.  For every class table, every
-   class, every oracle, every document and every call budget: running the generated
-   program equals the semantic specification — PROVIDED the final generator state passes
-   two decidable checks:
-     coherent g  : no guard lookup was answered by an entry stored for another type, and
-                   every guard entry's function was generated for that type
-                   (fails under the name collisions F9 / F22 and the Literal key alias F23);
-     region_ok g : no helper-compiled annotation contains a fixed-arity tuple under an
-                   index (F18) or a sequence in dict-key position (F26).
-   `_partial`: outside these regions the statement is false, see the refutations. *)
-Theorem C02_gen_sound_partial :
+(* (b) Generator soundness, compiler-correctness style.  For every class table, every class,
+   every oracle, every document and every call budget: running the generated program equals
+   the semantic specification.  After the repairs of F18 (index composition), F22 (helper
+   names), F23 (guard keys) and F48 (prefix reset) NO condition on positions remains: every
+   TypeInfo (variable index, chain of parent indexes, prefix), every nesting.
+   The ONE remaining premise is about function NAMES: the names recorded in the recursion
+   guard are pairwise distinct.  It is a decidable check on the generator's output and it
+   fails only when two different helper-compiled types are given the same function name —
+   the open defect F9: NamedTuple / TypedDict / dataclass helpers are named after the type's
+   __name__ (refuted below with two NamedTuples named P). *)
+Theorem C02_gen_sound :
   forall Or ct gn c f g,
-  gen_main ct gn c = Ok (f, g) -> coherent g = true -> region_ok ct g = true ->
+  gen_main ct gn c = Ok (f, g) -> names_distinct g = true ->
+  forall n o, run_main Or ct gn n c o = load_cls Or ct n c o.
+Proof.
+  intros Or ct gn c f g Hg Hd.
+  exact (run_main_sound Or ct gn c f g Hg (names_distinct_coherent ct gn c f g Hg Hd)).
+Qed.
+Print Assumptions C02_gen_sound.
+
+(* the same with the weaker premise `coherent g`: every guard entry's function was generated
+   for that entry's type (implied by distinct names) *)
+Theorem C02_gen_sound_coherent :
+  forall Or ct gn c f g,
+  gen_main ct gn c = Ok (f, g) -> coherent g = true ->
   forall n o, run_main Or ct gn n c o = load_cls Or ct n c o.
 Proof. exact run_main_sound. Qed.
-Print Assumptions C02_gen_sound_partial.
+Print Assumptions C02_gen_sound_coherent.
 
-(* The position-level statement: an expression generated at ANY TypeInfo ti, evaluated in
-   ANY environment, computes the specification applied to whatever the variable access
-   `ti.v()` evaluates to — whenever the annotation is free of the F18 / F26 shapes at that
-   position.  (Gf is the final generator state the expression is linked against.) *)
-Theorem C02_gen_expr_sound_partial :
+(* The position-level statement: an expression generated at ANY TypeInfo ti, evaluated in ANY
+   environment, computes the specification applied to whatever the variable access `ti.v()`
+   evaluates to.  (Gf is the final generator state the expression is linked against.) *)
+Theorem C02_gen_expr_sound :
   forall Or ct gn t ti cn g c g',
   gen_expr ct gn t ti cn g = Ok (c, g') ->
-  forall Gf, ext (g_guard g') (g_guard Gf) -> coherent Gf = true -> region_ok ct Gf = true ->
+  forall Gf, ext (g_guard g') (g_guard Gf) -> coherent Gf = true ->
     fns_ok (g_guard Gf) ct (g_fns Gf) ->
-    f18_free t (ixd ti) = true -> keyseq_free t (isk ti) = true -> g_alias g' = false ->
     forall n en,
       eval Or (run_fn Or ct (g_fns Gf) n) en c =
       load_v1_r Or ct n t (ti_opt ti) (eval Or (run_fn Or ct (g_fns Gf) n) en (tiv ti)).
 Proof. exact gen_expr_sound. Qed.
-Print Assumptions C02_gen_expr_sound_partial.
+Print Assumptions C02_gen_expr_sound.
 
 (* (c) Round trip: load_v1 t (dump v) = v for every conforming v over leaves, list, tuple
    (variadic and fixed), set, frozenset, deque, dict, defaultdict, Optional, Literal,
@@ -77,12 +87,12 @@ Theorem C02_roundtrip_code_partial :
   (forall rec l o v, good l v = true -> load_r Or rec (TLeaf l) o (Ok (dump Or ct v)) = Ok v) ->
   (forall l v, good l v = true -> is_none v = false -> is_none (dump Or ct v) = false) ->
   forallb keys_ok ct = true ->
-  gen_main ct gn c = Ok (f, g) -> coherent g = true -> region_ok ct g = true ->
+  gen_main ct gn c = Ok (f, g) -> names_distinct g = true ->
   forall n v, conforms ct good n (TData c) v = true ->
   run_main Or ct gn n c (dump Or ct v) = Ok v.
 Proof.
-  intros Or ct good gn c f g H1 H2 H3 Hg Hc Hr n v Hv.
-  rewrite (run_main_sound Or ct gn c f g Hg Hc Hr).
+  intros Or ct good gn c f g H1 H2 H3 Hg Hd n v Hv.
+  rewrite (run_main_sound Or ct gn c f g Hg (names_distinct_coherent ct gn c f g Hg Hd)).
   exact (rt_load_v1 Or ct good H1 H2 H3 n (TData c) v Hv).
 Qed.
 Print Assumptions C02_roundtrip_code_partial.
@@ -103,48 +113,48 @@ Definition toy_good (l : leaf) (v : pv) : bool :=
   match l, v with LInt, VInt _ | LStr, VStr _ => true | _, _ => false end.
 Definition doc1 (k : string) (v : pv) : pv := VDict None [(VStr (S k), v)].
 
-(* F18: x: tuple[tuple[int, str], str] — the inner tuple reads v1[k] instead of v1[0][k] *)
+(* F9 (open): x: P, y: P' — two different NamedTuples both named P share the helper name
+   _load_C_named_tuple_P; the second definition replaces the first *)
+Definition tP1 := TNamed (S "P") (TCons (S "a") tI TNil).
+Definition tP2 := TNamed (S "P") (TCons (S "a") tS (TCons (S "b") tI TNil)).
+Definition ct_F9 : ctable := [{| c_name := S "C"; c_fields := [fd "x" tP1; fd "y" tP2] |}].
+Definition doc_F9 := VDict None [(VStr (S "x"), VSeq KList [VInt 1]);
+                                 (VStr (S "y"), VSeq KList [VStr (S "s"); VInt 2])].
+Theorem C02_refuted_F9 :
+  exists f g e v,
+    gen_main ct_F9 2 0 = Ok (f, g) /\ names_distinct g = false /\ coherent g = false /\
+    run_main toy ct_F9 2 3 0 doc_F9 = Err e /\ load_cls toy ct_F9 3 0 doc_F9 = Ok v.
+Proof. vm_compute. do 4 eexists. repeat split; reflexivity. Qed.
+Print Assumptions C02_refuted_F9.
+
+(* The shapes of the repaired defects are inside the theorem now: names are distinct and the
+   generated program computes the specification's value. *)
+Definition in_scope (ct : ctable) (doc : pv) : Prop :=
+  exists f g v, gen_main ct 2 0 = Ok (f, g) /\ names_distinct g = true /\
+                run_main toy ct 2 3 0 doc = Ok v /\ load_cls toy ct 3 0 doc = Ok v.
+(* F18: x: tuple[tuple[int, str], str] *)
 Definition ct_F18 : ctable := [{| c_name := S "F"; c_fields := [fd "x" (TTuple (pair (TTuple (pair tI tS)) tS))] |}].
 Definition doc_F18 := doc1 "x" (VSeq KList [VSeq KList [VInt 1; VStr (S "a")]; VStr (S "b")]).
-Theorem C02_refuted_F18 :
-  exists f g e v,
-    gen_main ct_F18 2 0 = Ok (f, g) /\ coherent g = true /\ region_ok ct_F18 g = false /\
-    run_main toy ct_F18 2 3 0 doc_F18 = Err e /\ load_cls toy ct_F18 3 0 doc_F18 = Ok v.
-Proof. vm_compute. do 4 eexists. repeat split; reflexivity. Qed.
-Print Assumptions C02_refuted_F18.
-
-(* F22: x: tuple[Literal['a'], Literal['b']] — both helpers are named _load_A_literal_0 *)
+Example C02_ex_F18_shape : in_scope ct_F18 doc_F18.
+Proof. vm_compute. do 3 eexists. repeat split; reflexivity. Qed.
+(* F22: x: tuple[Literal['a'], Literal['b']] *)
 Definition ct_F22 : ctable :=
   [{| c_name := S "A"; c_fields := [fd "x" (TTuple (pair (TLit [LitStr (S "a")]) (TLit [LitStr (S "b")])))] |}].
 Definition doc_F22 := doc1 "x" (VSeq KList [VStr (S "a"); VStr (S "b")]).
-Theorem C02_refuted_F22 :
-  exists f g e v,
-    gen_main ct_F22 2 0 = Ok (f, g) /\ coherent g = false /\ region_ok ct_F22 g = true /\
-    run_main toy ct_F22 2 3 0 doc_F22 = Err e /\ load_cls toy ct_F22 3 0 doc_F22 = Ok v.
-Proof. vm_compute. do 4 eexists. repeat split; reflexivity. Qed.
-Print Assumptions C02_refuted_F22.
-
-(* F23: x: Literal[1]; y: Literal[True] — (1,) == (True,) as recursion-guard keys *)
+Example C02_ex_F22_shape : in_scope ct_F22 doc_F22.
+Proof. vm_compute. do 3 eexists. repeat split; reflexivity. Qed.
+(* F23: x: Literal[1]; y: Literal[True] *)
 Definition ct_F23 : ctable :=
   [{| c_name := S "C"; c_fields := [fd "x" (TLit [LitInt 1]); fd "y" (TLit [LitBool true])] |}].
 Definition doc_F23 := VDict None [(VStr (S "x"), VInt 1); (VStr (S "y"), VBool true)].
-Theorem C02_refuted_F23 :
-  exists f g e v,
-    gen_main ct_F23 2 0 = Ok (f, g) /\ coherent g = false /\ g_alias g = true /\
-    run_main toy ct_F23 2 3 0 doc_F23 = Err e /\ load_cls toy ct_F23 3 0 doc_F23 = Ok v.
-Proof. vm_compute. do 4 eexists. repeat split; reflexivity. Qed.
-Print Assumptions C02_refuted_F23.
-
-(* F26: x: dict[tuple[int, ...], int] — the key comprehension binds v3 but reads k3 *)
-Definition ct_F26 : ctable :=
+Example C02_ex_F23_shape : in_scope ct_F23 doc_F23.
+Proof. vm_compute. do 3 eexists. repeat split; reflexivity. Qed.
+(* F48: x: dict[tuple[int, ...], int] *)
+Definition ct_F48 : ctable :=
   [{| c_name := S "K"; c_fields := [fd "x" (TDict None (TSeq KTuple tI) tI)] |}].
-Definition doc_F26 := doc1 "x" (VDict None [(VSeq KTuple [VInt 1; VInt 2], VInt 3)]).
-Theorem C02_refuted_F26 :
-  exists f g e v,
-    gen_main ct_F26 2 0 = Ok (f, g) /\ coherent g = true /\ region_ok ct_F26 g = false /\
-    run_main toy ct_F26 2 3 0 doc_F26 = Err e /\ load_cls toy ct_F26 3 0 doc_F26 = Ok v.
-Proof. vm_compute. do 4 eexists. repeat split; reflexivity. Qed.
-Print Assumptions C02_refuted_F26.
+Definition doc_F48 := doc1 "x" (VDict None [(VSeq KTuple [VInt 1; VInt 2], VInt 3)]).
+Example C02_ex_F48_shape : in_scope ct_F48 doc_F48.
+Proof. vm_compute. do 3 eexists. repeat split; reflexivity. Qed.
 
 (* ---- non-vacuity: a class table with a self-referential class, a NamedTuple inside a
    list inside a dict, Optional, Literal and a fixed tuple satisfies every hypothesis ------ *)
@@ -168,8 +178,8 @@ Definition v_ex : pv :=
 
 Example C02_ex_supported : supported_ct ct_ex = true /\ forallb keys_ok ct_ex = true.
 Proof. split; reflexivity. Qed.
-Example C02_ex_generates_in_region :
-  exists f g, gen_main ct_ex 3 0 = Ok (f, g) /\ coherent g = true /\ region_ok ct_ex g = true.
+Example C02_ex_generates_distinct_names :
+  exists f g, gen_main ct_ex 3 0 = Ok (f, g) /\ names_distinct g = true /\ coherent g = true.
 Proof. vm_compute. do 2 eexists. repeat split; reflexivity. Qed.
 Example C02_ex_conforms : conforms ct_ex toy_good 4 (TData 0) v_ex = true.
 Proof. reflexivity. Qed.
